@@ -28,8 +28,8 @@ EDITS = {
    "def evaluate_logic(op, lval, rval):\n    if isinstance(lval, error.XLError):\n        return lval\n    if isinstance(rval, error.XLError):\n        return rval\n",
    "def evaluate_logic(op, lval, rval):\n    left_is_error = isinstance(lval, error.XLError)\n    if left_is_error:\n        return lval\n    elif isinstance(rval, error.XLError):\n        return rval\n"),
  'r07_off_comprehension': ('C20', 'hotxlfp/tinyemitter.py',
-   "        if events and callback:\n            for event in events:\n                if event.fn != callback and ((not hasattr(event.fn, '_')) or event.fn._ != callback):\n                    live_events.append(event)\n",
-   "        if events and callback:\n            live_events = [event for event in events\n                           if event.fn != callback and ((not hasattr(event.fn, '_')) or event.fn._ != callback)]\n"),
+   "        if events and callback is not None:\n            for event in events:\n                if event.fn != callback and ((not hasattr(event.fn, '_')) or event.fn._ != callback):\n                    live_events.append(event)\n",
+   "        if events and callback is not None:\n            live_events = [event for event in events\n                           if event.fn != callback and ((not hasattr(event.fn, '_')) or event.fn._ != callback)]\n"),
  'r08_index_checks_swapped': ('C18', 'hotxlfp/formulas/lookupandreference.py',
    "    if row_num is None:\n        row_num = DEFAULT\n    if column_num is None:\n        column_num = DEFAULT\n",
    "    if column_num is None:\n        column_num = DEFAULT\n    if row_num is None:\n        row_num = DEFAULT\n"),
@@ -64,8 +64,8 @@ EDITS = {
    "    index = None\n    index_value = None\n    for idx in range(len(lookup_array)):\n        if match_type == 1:\n            if lookup_array[idx] == lookup_value:",
    "    index = None\n    index_value = None\n    pattern = lookup_value.lower() if isinstance(lookup_value, string_types) else None\n    for idx in range(len(lookup_array)):\n        if match_type == 1:\n            if lookup_array[idx] == lookup_value:"),
  'r18b_match_hoisted_lower_use': ('C18', 'hotxlfp/formulas/lookupandreference.py',
-   "fnmatch.fnmatch(lookup_array[idx].lower(), lookup_value.lower()):",
-   "fnmatch.fnmatch(lookup_array[idx].lower(), pattern):"),
+   "utils.wildcard_match(lookup_array[idx].lower(), lookup_value.lower()):",
+   "utils.wildcard_match(lookup_array[idx].lower(), pattern):"),
  'r19_criteria_pairs_helper': ('C11', 'hotxlfp/formulas/statistical.py',
    "        return error.VALUE  # not an array: never walk an arbitrary (possibly never-ending) iterable\n    range_and_preds = list(zip(criteria[::2], (utils.parse_criteria(criterion) for criterion in criteria[1::2])))\n    b = None\n",
    "        return error.VALUE  # not an array: never walk an arbitrary (possibly never-ending) iterable\n    range_and_preds = _criteria_pairs(criteria)\n    b = None\n"),
